@@ -1,0 +1,55 @@
+//go:build verif
+
+// Contracts for package sql, checked by /verif/govc against an ASSUMED model of database/sql
+// (/verif/contracts/45_sql.spec; see /verif/DESIGN.md C06/C07). No code here: only //@ comments.
+
+package sql
+
+//@ func verifScenarioWrite
+//@   returns (werr, seen, gerr, serr)
+//@   let oldHas := old(disk_has[id])
+//@   let oldVal := old(disk_val[id])
+//@   requires p != nil && p.db != nil
+//@   modifies n_begin, tx_open, txw_has, txw_val, n_open, n_exec, n_dbcommit, commit_err, disk_has, disk_val, n_rollback, row_err, row_has, row_val
+//@   // a crash at any driver-call boundary leaves this log at the old or at the new checkpoint, every other log untouched
+//@   crash_invariant[C06.ci] (disk_has[id] == oldHas && disk_val[id] == oldVal) || (disk_has[id] && disk_val[id] == c)
+//@   crash_invariant[C06.ci,C12.sq] forall k string :: k != id ==> disk_has[k] == old(disk_has[k]) && disk_val[k] == old(disk_val[k])
+//@   // acknowledged => durable; everything is written through the one transaction and committed exactly once, last
+//@   ensures[C06.ack] serr == nil ==> disk_has[id] && disk_val[id] == c && n_dbcommit == old(n_dbcommit) + 1 && commit_err == nil
+//@   ensures[C06.tx]  n_dbexec == old(n_dbexec) && n_dbcommit <= old(n_dbcommit) + 1 && n_exec <= old(n_exec) + 1
+//@   ensures[C06.na,C03.sq]  n_dbcommit == old(n_dbcommit) ==> disk_has == old(disk_has) && disk_val == old(disk_val)
+//@   // the read inside the transaction returns the committed row, and NotFound exactly when there is none
+//@   ensures[C07.rd]  werr == nil && gerr == nil ==> oldHas && seen == oldVal
+//@   ensures[C07.wo]  werr != nil ==> serr != nil && n_open == old(n_open) && n_begin == old(n_begin) + 1 && n_exec == old(n_exec) && n_dbcommit == old(n_dbcommit)
+//@   ensures[C07.nf]  gerr != nil && code(gerr) == NotFound ==> !oldHas
+//@   // no outcome leaves a transaction open (single-connection pool: the next operation would block for ever)
+//@   ensures[C07.open] n_open == old(n_open)
+
+//@ func verifScenarioRefuse
+//@   returns (werr, seen, gerr)
+//@   requires p != nil && p.db != nil
+//@   modifies n_begin, tx_open, txw_has, n_open, n_rollback, row_err, row_has, row_val
+//@   ensures[C07.open] n_open == old(n_open)
+//@   ensures[C03.sq,C06.na]   disk_has == old(disk_has) && disk_val == old(disk_val) && n_dbcommit == old(n_dbcommit) && n_exec == old(n_exec)
+//@   ensures[C07.rd]   werr == nil && gerr == nil ==> old(disk_has[id]) && seen == old(disk_val[id])
+//@   ensures[C07.nf]   gerr != nil && code(gerr) == NotFound ==> !old(disk_has[id])
+
+//@ func verifScenarioRead
+//@   returns (seen, gerr)
+//@   requires p != nil && p.db != nil
+//@   modifies row_err, row_has, row_val
+//@   ensures[C16.sq,C07.rd] gerr == nil ==> old(disk_has[id]) && seen == old(disk_val[id])
+//@   ensures[C16.sq,C07.nf] gerr != nil && code(gerr) == NotFound ==> !old(disk_has[id])
+//@   ensures[C16.sq] old(disk_has[id]) && gerr != nil ==> code(gerr) != NotFound || gerr == nil
+//@   ensures[C03.sq] disk_has == old(disk_has) && disk_val == old(disk_val) && n_open == old(n_open)
+
+//@ func getLatestCheckpoint
+//@   opt inline
+
+//@ func (*sqlLogPersistence).Logs
+//@   returns (logs, err)
+//@   requires p != nil && p.db != nil
+//@   modifies rows_open, n_open
+//@   // the row cursor is closed on every path (it holds the single connection)
+//@   ensures[C07.rows] n_open == old(n_open)
+//@   invariant#1 n_open == old(n_open) + 1 && rows_open[rows]
